@@ -493,9 +493,11 @@ Fixpoint iter_n {A} (n : nat) (f : A -> A) (x : A) : A := match n with O => x | 
    sequence number *)
 Definition snapshot_cps (y : sys) (srg : N) : list checkpoint :=
   map (fun ks => s2c (snd ks)) (filter (fun ks => N.eqb (s_srg (snd ks)) srg) (y_live y)).
-(* a snapshot means "these are all the sessions of the SRG": the repaired standby first drops (and releases) every
-   stored session of the SRG, then stores the snapshot (no order dependence between a session that gave an address up
-   and the one that got it); /repo HEAD (f_lagdel) keeps what it has *)
+(* a snapshot means "these are all the sessions of the SRG".  Repaired (fixes/C11_bulk_complete_set.patch): what the
+   standby holds for the SRG and is not sent is dropped and released, and the reservations of what it was sent are
+   made once every release has been applied.  The model states the resulting end state directly: drop (and release)
+   every stored session of the SRG, then store the snapshot — same store, leases and free sets as the patch's
+   seen-set algorithm whenever no two live sessions claim the same address.  /repo HEAD (f_lagdel) keeps what it has. *)
 Definition purge (fl : flags) (rc : receiver) (srg : N) : receiver :=
   fold_left (fun r kc => if N.eqb (c_srg (snd kc)) srg then recv_delete fl r (snd kc) else r) (rc_store rc) rc.
 Definition recv_snapshot (fl : flags) (rc : receiver) (srg seq : N) (cps : list checkpoint) : receiver :=
@@ -514,10 +516,11 @@ Definition bulk_op (fl : flags) (churn : sys -> sys) (y : sys) (srg : N) (k page
               let (qs, p) := somes l in
               if p then mksys (y_sender y) (y_recv y) (y_sent y) (y_next y) (y_live y) (S (y_panics y)) else
               let last := last_of (y_recv y) srg in
-              if f_window fl || (N.leb os (last + 1) && (f_lagdel fl || N.eqb last 0 || N.leb ns last)) then
-                (* the window reaches back to what the standby has — and, repaired, the standby is fresh or caught up
-                   (a lagging standby gets the snapshot: bare checkpoints can convey neither a DELETE nor the order in
-                   which an address changed hands): replay it *)
+              if f_window fl || (N.leb os (last + 1) && (f_lagdel fl || N.eqb last 0)) then
+                (* the window reaches back to what the standby has — and, repaired
+                   (fixes/C11_bulk_complete_set.patch), the standby has nothing yet (a standby with state gets the
+                   snapshot: bare checkpoints can convey neither a DELETE nor the order in which an address changed
+                   hands): replay it *)
                 let y1 := iter_n (bulk_pages fl qs pagesz * k) churn y in
                 mksys (y_sender y1) (recv_bulk fl (y_recv y1) srg qs) (y_sent y1)
                       (aset N.eqb srg (Nat.max (next_of y1 srg) (N.to_nat ns)) (y_next y1)) (y_live y1) (y_panics y1)
